@@ -780,6 +780,104 @@ theorem member_distinct (nn : Nat) (s : State) (hu : U nn s) (hd : DistinctIn s.
   have hnd := WkL.nodup_recv_of_distinct hu.b0 hd
   exact List.Nodup.sublist (List.Sublist.map _ List.filter_sublist) hnd
 
+/-- a message still pending at a member has not been answered by it -/
+def L3 (s : State) : Prop := ∀ p ∈ s.core.pend, ∀ y, (p.1, Ev.out (p.2.1, y)) ∉ s.mtr
+
+theorem l3_step (ms : List (Val → List Val)) (nn : Nat) (ff : Bool) (hms : ms.length = nn) (hpos : 0 < nn)
+    (s s' : State) (a : Act) (hu : U nn s) (hc : C ms ff s) (h3 : L3 s) (hs : step nn ff s a = some s')
+    (hh : Hyp ms nn s') : L3 s' := by
+  have hh0 := hyp_prefix ms nn ff s s' a hs hh
+  have hc' := c_step ms nn ff hms hpos s s' a hu hc hs hh
+  have hu' := u_step nn ff s s' a hu hs
+  obtain ⟨htr, hmtr, hcore⟩ := step_spec nn ff s s' a hs
+  have hnd : (s.core.recv.map (·.1)).Nodup := WkL.nodup_recv_of_distinct hu.b0 hh0.1
+  cases a with
+  | junk i m =>
+    exfalso
+    obtain ⟨hi, hg, _⟩ := hcore
+    have h1 := hh.2 i hi
+    rw [hmtr, proj_append] at h1
+    simp only [mtrDelta, proj_single_same] at h1
+    obtain ⟨u, y⟩ := m
+    obtain ⟨_, x', q1, _, q3⟩ := h1.snoc_out_inv
+    rcases hc.l1 i u x' ((mem_proj i _ _).mp q1) with ⟨y', h2⟩ | h2
+    · exact q3 y' ((mem_proj i _ _).mpr h2)
+    · exact hg _ h2 ⟨rfl, rfl⟩
+  | node a' =>
+    cases a' with
+    | arrive m =>
+      obtain ⟨_, _, f3, _⟩ := Ens.frame_arrive hcore
+      intro p hp y; rw [f3] at hp; rw [hmtr]; simpa [mtrDelta] using h3 p hp y
+    | enq =>
+      obtain ⟨u, x, rest, hq, _, f2, _, f4⟩ := Ens.frame_enq hcore
+      rw [anyMs_length] at f4
+      have hnd' : (s'.core.recv.map (·.1)).Nodup := WkL.nodup_recv_of_distinct hu'.b0 hh.1
+      rw [f2] at hnd'
+      have hfresh := (Ens.nodup_snoc hnd').2
+      intro p hp y hmem
+      rw [f4] at hp; rw [hmtr] at hmem
+      simp only [mtrDelta, hq, List.mem_append] at hp hmem
+      have hold : (p.1, Ev.out (p.2.1, y)) ∈ s.mtr := by
+        rcases hmem with hmem | hmem
+        · exact hmem
+        · by_cases hx : x.isExc = true
+          · simp [hx] at hmem
+          · rw [if_neg hx] at hmem; simp only [List.mem_map, List.mem_range] at hmem
+            obtain ⟨j, _, he⟩ := hmem; cases he
+      rcases hp with hp | hp
+      · exact h3 p hp y hold
+      · by_cases hx : x.isExc = true
+        · simp [hx] at hp
+        · rw [if_neg hx] at hp; simp only [List.mem_map, List.mem_range] at hp
+          obtain ⟨j, hj, rfl⟩ := hp
+          -- an earlier answer of member j for the fresh uid u would need an earlier input with uid u
+          have hsat := hh0.2 j hj
+          obtain ⟨x', q1, _⟩ := hsat.out_mem u y ((mem_proj j _ _).mpr hold)
+          have := mem_inp_recv hu ((mem_proj j _ _).mp q1)
+          exact hfresh (List.mem_map.mpr ⟨(u, x'), this, rfl⟩)
+    | memberOut k y =>
+      obtain ⟨i, u, x, hk, f1, _, _, _⟩ := Ens.frame_memberOut hcore
+      obtain ⟨as', hr'⟩ := hc.reach
+      have hinv := Ens.inv_run (ms := ms) (ff := ff) (hms ▸ hpos) as' s.core hr' hnd
+      -- no other pending entry has the key (i, u)
+      have huniq : ∀ p ∈ s.core.pend.eraseIdx k, ¬ (p.1 = i ∧ p.2.1 = u) := by
+        intro p hp hpk
+        have hperm := (eraseIdx_perm s.core.pend k (i, (u, x)) hk).map (fun m : Nat × Msg => (m.1, m.2.1))
+        have hnd2 : ((s.core.pend.map (fun m : Nat × Msg => (m.1, m.2.1)))).Nodup := by
+          have := hinv.iknd; simp only [Ens.ik, List.map_append, List.nodup_append] at this; exact this.1
+        rw [hperm.nodup_iff, List.map_cons, List.nodup_cons] at hnd2
+        apply hnd2.1
+        exact List.mem_map.mpr ⟨p, hp, by simp [hpk.1, hpk.2]⟩
+      intro p hp y' hmem
+      rw [f1] at hp; rw [hmtr] at hmem
+      simp only [mtrDelta, hk, List.mem_append, List.mem_singleton] at hmem
+      rcases hmem with hmem | hmem
+      · exact h3 p (List.mem_of_mem_eraseIdx hp) y' hmem
+      · have e1 : p.1 = i := (Prod.mk.inj hmem).1
+        have e2 : p.2.1 = u := by
+          have := (Prod.mk.inj hmem).2
+          injection this with h4; exact (Prod.mk.inj h4).1
+        exact huniq p hp ⟨e1, e2⟩
+    | deq k =>
+      obtain ⟨_, _, f3, _⟩ := Ens.frame_deq hcore
+      intro p hp y; rw [f3] at hp; rw [hmtr]; simpa [mtrDelta] using h3 p hp y
+    | emit k =>
+      obtain ⟨t, _, _, _, _, f3⟩ := Ens.frame_emit hcore
+      intro p hp y; rw [f3] at hp; rw [hmtr]; simpa [mtrDelta] using h3 p hp y
+    | deliver =>
+      obtain ⟨_, _, f3, _⟩ := Ens.frame_deliver hcore
+      intro p hp y; rw [f3] at hp; rw [hmtr]; simpa [mtrDelta] using h3 p hp y
+
+theorem lift3 (ms : List (Val → List Val)) (nn : Nat) (ff : Bool) (hms : ms.length = nn) (hpos : 0 < nn)
+    (as : List Act) (s : State) (hr : Core.run (step nn ff) init as = some s) :
+    U nn s ∧ (Hyp ms nn s → C ms ff s ∧ L3 s) := by
+  refine Core.invariant_run (Inv := fun s => U nn s ∧ (Hyp ms nn s → C ms ff s ∧ L3 s)) ?_ as init s
+    ⟨u_init nn, fun _ => ⟨c_init ms ff, by intro p hp; simp [init, Ens.init] at hp⟩⟩ hr
+  intro s a s' ⟨hu, hc⟩ hs
+  refine ⟨u_step nn ff s s' a hu hs, fun hh => ?_⟩
+  obtain ⟨hc0, h30⟩ := hc (hyp_prefix ms nn ff s s' a hs hh)
+  exact ⟨c_step ms nn ff hms hpos s s' a hu hc0 hs hh, l3_step ms nn ff hms hpos s s' a hu hc0 h30 hs hh⟩
+
 end EnsL
 
 /-! ## switch with arbitrary members -/
@@ -1195,6 +1293,108 @@ theorem member_distinct (nn : Nat) (sel : Val → Nat) (s : State) (hu : U nn se
   have hnd := WkL.nodup_recv_of_distinct hu.b0 hd
   exact List.Nodup.sublist (List.Sublist.map _ List.filter_sublist) hnd
 
+def L3 (s : State) : Prop := ∀ p ∈ s.core.pend, ∀ y, (p.1, Ev.out (p.2.1, y)) ∉ s.mtr
+
+theorem l3_step (ms : List (Val → List Val)) (nn : Nat) (sel : Val → Nat) (hms : ms.length = nn)
+    (s s' : State) (a : Act) (hu : U nn sel s) (hc : C ms sel s) (h3 : L3 s)
+    (hs : step nn sel s a = some s') (hh : Hyp ms nn s') : L3 s' := by
+  have hh0 := hyp_prefix ms nn sel s s' a hs hh
+  have hu' := u_step nn sel s s' a hu hs
+  obtain ⟨htr, hmtr, hcore⟩ := step_spec nn sel s s' a hs
+  have hnd : (s.core.recv.map (·.1)).Nodup := WkL.nodup_recv_of_distinct hu.b0 hh0.1
+  cases a with
+  | junk i m =>
+    exfalso
+    obtain ⟨hi, hg, _⟩ := hcore
+    have h1 := hh.2 i hi
+    rw [hmtr, proj_append] at h1
+    simp only [mtrDelta, proj_single_same] at h1
+    obtain ⟨u, y⟩ := m
+    obtain ⟨_, x', q1, _, q3⟩ := h1.snoc_out_inv
+    rcases hc.l1 i u x' ((mem_proj i _ _).mp q1) with ⟨y', h2⟩ | h2
+    · exact q3 y' ((mem_proj i _ _).mpr h2)
+    · exact hg _ h2 ⟨rfl, rfl⟩
+  | node a' =>
+    cases a' with
+    | arrive m =>
+      obtain ⟨_, _, f3, _⟩ := Sw.frame_arrive hcore
+      intro p hp y; rw [f3] at hp; rw [hmtr]; simpa [mtrDelta] using h3 p hp y
+    | enq =>
+      obtain ⟨u, x, rest, hq, _, f2, _, _, f4⟩ := Sw.frame_enq hcore
+      have hnd' : (s'.core.recv.map (·.1)).Nodup := WkL.nodup_recv_of_distinct hu'.b0 hh.1
+      rw [f2] at hnd'
+      have hfresh := (Ens.nodup_snoc hnd').2
+      intro p hp y hmem
+      rw [f4] at hp; rw [hmtr] at hmem
+      simp only [mtrDelta, hq, List.mem_append] at hp hmem
+      have hold : (p.1, Ev.out (p.2.1, y)) ∈ s.mtr := by
+        rcases hmem with hmem | hmem
+        · exact hmem
+        · by_cases hx : x.isExc = true
+          · simp [hx] at hmem
+          · rw [if_neg hx] at hmem; simp only [List.mem_singleton] at hmem
+            have := (Prod.mk.inj hmem).2; cases this
+      rcases hp with hp | hp
+      · exact h3 p hp y hold
+      · by_cases hx : x.isExc = true
+        · simp [hx] at hp
+        · rw [if_neg hx] at hp; simp only [List.mem_singleton] at hp
+          subst hp
+          have hj := hu.lt _ hold
+          have hsat := hh0.2 (sel x) hj
+          obtain ⟨x', q1, _⟩ := hsat.out_mem u y ((mem_proj (sel x) _ _).mpr hold)
+          have := mem_inp_recv hu ((mem_proj (sel x) _ _).mp q1)
+          exact hfresh (List.mem_map.mpr ⟨(u, x'), this, rfl⟩)
+    | memberOut k y =>
+      obtain ⟨i, u, x, hk, f1, _, _, _⟩ := Sw.frame_memberOut hcore
+      obtain ⟨as', hr'⟩ := hc.reach
+      have hinv := Sw.inv_run ms sel as' s.core hr'
+      -- no other pending entry carries uid u: it would be the same message, counted twice
+      have huniq : ∀ p ∈ s.core.pend.eraseIdx k, p.2.1 ≠ u := by
+        intro p hp hpu
+        have hcnt := fun m => hinv.cons m
+        have hin : ∀ q ∈ s.core.pend, q.2 ∈ s.core.recv := by
+          intro q hq
+          have h1 := hcnt q.2
+          have h2 : 0 < (s.core.pend.map (·.2)).count q.2 := List.count_pos_iff.mpr (List.mem_map.mpr ⟨q, hq, rfl⟩)
+          exact List.count_pos_iff.mp (by omega)
+        have r1 := hin p (List.mem_of_mem_eraseIdx hp)
+        have r2 := hin _ (List.mem_of_getElem? hk)
+        have hx : p.2.2 = x := fst_unique hnd (u := u) (by rw [← hpu]; exact r1) r2
+        have hp2 : p.2 = (u, x) := Prod.ext hpu hx
+        have h1 := count_map_eraseIdx (fun q : Nat × Msg => q.2) (u, x) s.core.pend k (i, (u, x)) hk
+        have h2 : 0 < ((s.core.pend.eraseIdx k).map (·.2)).count (u, x) :=
+          List.count_pos_iff.mpr (List.mem_map.mpr ⟨p, hp, hp2⟩)
+        have h3' := hcnt (u, x)
+        have h4 := (List.nodup_iff_count.mp (nodup_of_nodup_fst hnd)) (u, x)
+        simp only [if_true] at h1
+        omega
+      intro p hp y' hmem
+      rw [f1] at hp; rw [hmtr] at hmem
+      simp only [mtrDelta, hk, List.mem_append, List.mem_singleton] at hmem
+      rcases hmem with hmem | hmem
+      · exact h3 p (List.mem_of_mem_eraseIdx hp) y' hmem
+      · have e2 : p.2.1 = u := by
+          have := (Prod.mk.inj hmem).2
+          injection this with h4; exact (Prod.mk.inj h4).1
+        exact huniq p hp e2
+    | emit k =>
+      obtain ⟨t, _, _, _, _, f3⟩ := Sw.frame_emit hcore
+      intro p hp y; rw [f3] at hp; rw [hmtr]; simpa [mtrDelta] using h3 p hp y
+    | deliver =>
+      obtain ⟨_, _, f3, _⟩ := Sw.frame_deliver hcore
+      intro p hp y; rw [f3] at hp; rw [hmtr]; simpa [mtrDelta] using h3 p hp y
+
+theorem lift3 (ms : List (Val → List Val)) (nn : Nat) (sel : Val → Nat) (hms : ms.length = nn)
+    (as : List Act) (s : State) (hr : Core.run (step nn sel) init as = some s) :
+    U nn sel s ∧ (Hyp ms nn s → C ms sel s ∧ L3 s) := by
+  refine Core.invariant_run (Inv := fun s => U nn sel s ∧ (Hyp ms nn s → C ms sel s ∧ L3 s)) ?_ as init s
+    ⟨u_init nn sel, fun _ => ⟨c_init ms sel, by intro p hp; simp [init, Sw.init] at hp⟩⟩ hr
+  intro s a s' ⟨hu, hc⟩ hs
+  refine ⟨u_step nn sel s s' a hu hs, fun hh => ?_⟩
+  obtain ⟨hc0, h30⟩ := hc (hyp_prefix ms nn sel s s' a hs hh)
+  exact ⟨c_step ms nn sel hms s s' a hu hc0 hs hh, l3_step ms nn sel hms s s' a hu hc0 h30 hs hh⟩
+
 end SwL
 /-! ## sequences -/
 
@@ -1389,6 +1589,155 @@ theorem seqs_sat : (ts : List Tree) → WFs ts → ∀ σ, TrSeq ts σ → Disti
     have hdB := (seq_distinct (outs t) τ sA hd).2
     have sB := seqs_sat (t' :: ts) hw.2 (pB τ) hB hdB
     exact Sat.congr (fun x => by simp [outsSeq]) (seq_sat (outs t) (outsSeq (t' :: ts)) τ.length τ rfl sA sB)
+end
+
+/-! ## completeness: a tree at rest has answered every request -/
+
+mutual
+theorem trq_tr : (t : Tree) → ∀ σ, TrQ t σ → Tr t σ
+  | .worker w, σ, h => by
+    simp only [TrQ] at h; simp only [Tr]
+    obtain ⟨as, s, hr, hs, _⟩ := h; exact ⟨as, s, hr, hs⟩
+  | .seq ts, σ, h => by
+    simp only [TrQ] at h; simp only [Tr]; exact trqseq_trseq ts σ h
+  | .ens ts ff, σ, h => by
+    simp only [TrQ] at h; simp only [Tr]
+    obtain ⟨as, s, hr, hs, _, _, _, hall⟩ := h
+    exact ⟨as, s, hr, hs, trqall_trall ts 0 s.mtr hall⟩
+  | .switch ts sel, σ, h => by
+    simp only [TrQ] at h; simp only [Tr]
+    obtain ⟨as, s, hr, hs, _, _, hall⟩ := h
+    exact ⟨as, s, hr, hs, trqall_trall ts 0 s.mtr hall⟩
+theorem trqall_trall : (ts : List Tree) → ∀ k mtr, TrQAll ts k mtr → TrAll ts k mtr
+  | [], _, _, _ => by simp [TrAll]
+  | t :: ts, k, mtr, h => by
+    simp only [TrQAll] at h; simp only [TrAll]
+    exact ⟨trq_tr t _ h.1, trqall_trall ts (k + 1) mtr h.2⟩
+theorem trqseq_trseq : (ts : List Tree) → ∀ σ, TrQSeq ts σ → TrSeq ts σ
+  | [], _, h => by simp [TrQSeq] at h
+  | [t], σ, h => by simp only [TrQSeq] at h; simp only [TrSeq]; exact trq_tr t σ h
+  | t :: t' :: ts, σ, h => by
+    simp only [TrQSeq] at h; simp only [TrSeq]
+    obtain ⟨τ, hA, hB, hs⟩ := h
+    exact ⟨τ, trq_tr t _ hA, trqseq_trseq (t' :: ts) _ hB, hs⟩
+end
+
+/-- from the node-level completeness to the trace: every input has an output -/
+theorem answered_in_trace {tr : List Ev} {recv : List Msg} {sentG : List GMsg}
+    (b0 : tr.filterMap Ev.inpOf = recv) (b2 : tr.filterMap Ev.outOf = sentG.map gmsg)
+    (hc : Complete recv sentG) (u : Nat) (x : Val) (h : Ev.inp (u, x) ∈ tr) : ∃ y, Ev.out (u, y) ∈ tr := by
+  have : (u, x) ∈ recv := by rw [← b0]; exact mem_filterMap_inpOf.mpr h
+  obtain ⟨t, ht, hk⟩ := hc.answered _ this
+  refine ⟨t.2.2, mem_filterMap_outOf.mp ?_⟩
+  rw [b2]
+  have hu : t.1 = u := (Prod.mk.inj hk).1
+  exact List.mem_map.mpr ⟨t, ht, by simp [gmsg, hu]⟩
+
+mutual
+/-- **Whole-tree completeness.**  In a behaviour of the concrete tree that has come to rest, with
+    distinct input uids, every request that entered has been answered (and by `tree_sat` exactly once,
+    with an allowed outcome of its own input). -/
+theorem tree_complete : (t : Tree) → WF t → ∀ σ, TrQ t σ → DistinctIn σ →
+    ∀ u x, Ev.inp (u, x) ∈ σ → ∃ y, Ev.out (u, y) ∈ σ
+  | .worker w, hw, σ, htr, hd => by
+    simp only [TrQ] at htr
+    obtain ⟨as, s, hr, rfl, hq⟩ := htr
+    have h0 : WkL.Inv0 w s := Core.invariant_run (Inv := WkL.Inv0 w)
+      (fun s a s' h hs => WkL.inv0_step w s s' a h hs) as WkL.init s
+      ⟨⟨[], rfl⟩, ⟨by simp [WkL.init, Wk.init], by simp [WkL.init, Wk.init]⟩⟩ hr
+    obtain ⟨⟨as', hr'⟩, ⟨b0, b2⟩⟩ := h0
+    have hc := (Wk.contract w hw as' s.core hr').2 hq
+    intro u x h
+    exact answered_in_trace (by rw [b0, hq.1, List.append_nil]) b2 hc u x h
+  | .seq ts, hw, σ, htr, hd => by
+    simp only [TrQ] at htr
+    exact seqs_complete ts hw σ htr hd
+  | .ens ts ff, hw, σ, htr, hd => by
+    simp only [TrQ] at htr
+    obtain ⟨as, s, hr, rfl, q1, q3, q4, hall⟩ := htr
+    obtain ⟨hu, hc⟩ := EnsL.lift3 (ts.map outs) ts.length ff (by simp) hw.1 as s hr
+    have hmd : ∀ j, j < ts.length → DistinctIn (proj (0 + j) s.mtr) :=
+      fun j hj => by rw [Nat.zero_add]; exact EnsL.member_distinct ts.length s hu hd j hj
+    have hyp : EnsL.Hyp (ts.map outs) ts.length s := by
+      refine ⟨hd, fun i hi => ?_⟩
+      have := all_sat ts hw.2 0 s.mtr (trqall_trall ts 0 s.mtr hall) hmd i hi
+      rwa [Nat.zero_add] at this
+    obtain ⟨hC, h3⟩ := hc hyp
+    have hpend : s.core.pend = [] := by
+      apply List.eq_nil_iff_forall_not_mem.mpr
+      intro p hp
+      have hi := hu.pl p hp
+      have hin := hC.l2 p hp
+      have := all_complete ts hw.2 0 s.mtr hall hmd p.1 hi p.2.1 p.2.2
+        (by rw [Nat.zero_add]; exact (mem_proj _ _ _).mpr hin)
+      obtain ⟨y, hy⟩ := this
+      rw [Nat.zero_add] at hy
+      exact h3 p hp y ((mem_proj _ _ _).mp hy)
+    obtain ⟨as', hr'⟩ := hC.reach
+    have hnd := WkL.nodup_recv_of_distinct hu.b0 hd
+    have hcomp := (Ens.contract (ts.map outs) ff (by simpa using hw.1) as' s.core hr' hnd).2 ⟨q1, hpend, q3, q4⟩
+    intro u x h
+    exact answered_in_trace (by rw [hu.b0, q1, List.append_nil]) hC.b2 hcomp u x h
+  | .switch ts sel, hw, σ, htr, hd => by
+    simp only [TrQ] at htr
+    obtain ⟨as, s, hr, rfl, q1, q4, hall⟩ := htr
+    obtain ⟨hu, hc⟩ := SwL.lift3 (ts.map outs) ts.length sel (by simp) as s hr
+    have hmd : ∀ j, j < ts.length → DistinctIn (proj (0 + j) s.mtr) :=
+      fun j hj => by rw [Nat.zero_add]; exact SwL.member_distinct ts.length sel s hu hd j hj
+    have hyp : SwL.Hyp (ts.map outs) ts.length s := by
+      refine ⟨hd, fun i hi => ?_⟩
+      have := all_sat ts hw 0 s.mtr (trqall_trall ts 0 s.mtr hall) hmd i hi
+      rwa [Nat.zero_add] at this
+    obtain ⟨hC, h3⟩ := hc hyp
+    have hpend : s.core.pend = [] := by
+      apply List.eq_nil_iff_forall_not_mem.mpr
+      intro p hp
+      have hi := hu.pl p hp
+      have hin := hC.l2 p hp
+      have := all_complete ts hw 0 s.mtr hall hmd p.1 hi p.2.1 p.2.2
+        (by rw [Nat.zero_add]; exact (mem_proj _ _ _).mpr hin)
+      obtain ⟨y, hy⟩ := this
+      rw [Nat.zero_add] at hy
+      exact h3 p hp y ((mem_proj _ _ _).mp hy)
+    obtain ⟨as', hr'⟩ := hC.reach
+    have hcomp := (Sw.contract (ts.map outs) sel as' s.core hr').2 ⟨q1, hpend, q4⟩
+    intro u x h
+    exact answered_in_trace (by rw [hu.b0, q1, List.append_nil]) hC.b2 hcomp u x h
+theorem all_complete : (ts : List Tree) → WFs ts → ∀ (k : Nat) (mtr : List (Nat × Ev)), TrQAll ts k mtr →
+    (∀ i, i < ts.length → DistinctIn (proj (k + i) mtr)) →
+    ∀ i, i < ts.length → ∀ u x, Ev.inp (u, x) ∈ proj (k + i) mtr → ∃ y, Ev.out (u, y) ∈ proj (k + i) mtr
+  | [], _, _, _, _, _ => fun i hi => absurd hi (by simp)
+  | t :: ts, hw, k, mtr, hall, hd => fun i hi => by
+    simp only [TrQAll] at hall
+    cases i with
+    | zero =>
+      simp only [Nat.add_zero]
+      exact tree_complete t hw.1 _ hall.1 (by simpa using hd 0 (by simp))
+    | succ i =>
+      have hi' : i < ts.length := by simpa using hi
+      have := all_complete ts hw.2 (k + 1) mtr hall.2
+        (fun j hj => by
+          have := hd (j + 1) (by simpa using hj)
+          rwa [show k + (j + 1) = k + 1 + j by omega] at this) i hi'
+      rwa [show k + 1 + i = k + (i + 1) by omega] at this
+theorem seqs_complete : (ts : List Tree) → WFs ts → ∀ σ, TrQSeq ts σ → DistinctIn σ →
+    ∀ u x, Ev.inp (u, x) ∈ σ → ∃ y, Ev.out (u, y) ∈ σ
+  | [], _, _, htr, _ => by simp [TrQSeq] at htr
+  | [t], hw, σ, htr, hd => by
+    simp only [TrQSeq] at htr
+    exact tree_complete t hw.1 σ htr hd
+  | t :: t' :: ts, hw, σ, htr, hd => by
+    simp only [TrQSeq] at htr
+    obtain ⟨τ, hA, hB, rfl⟩ := htr
+    have hdA : DistinctIn (pA τ) := by
+      unfold DistinctIn at hd ⊢; rw [inps_pA_eq_pE]; exact hd
+    have sA := tree_sat t hw.1 (pA τ) (trq_tr t _ hA) hdA
+    have hdB := (seq_distinct (outs t) τ sA hd).2
+    intro u x h
+    obtain ⟨y, hy⟩ := tree_complete t hw.1 (pA τ) hA hdA u x ((mem_pA_inp τ _).mpr ((mem_pE_inp τ _).mp h))
+    have hmid : Ev.inp (u, y) ∈ pB τ := (mem_pB_inp τ _).mpr ((mem_pA_out τ _).mp hy)
+    obtain ⟨z, hz⟩ := seqs_complete (t' :: ts) hw.2 (pB τ) hB hdB u y hmid
+    exact ⟨z, (mem_pE_out τ _).mpr ((mem_pB_out τ _).mp hz)⟩
 end
 
 end Servlet
